@@ -92,6 +92,8 @@ static struct vloop_pump *vloop_find_id(struct vloop_mgr *m, unsigned id)
     return NULL;
 }
 
+void (*vloop_obj_cb)(int alloc, const char *kind, const void *p) = NULL;
+
 /* --- back-end seam --------------------------------------------------------- */
 
 static struct upump *vloop_alloc(struct upump_mgr *mgr, int event, va_list args)
@@ -135,6 +137,8 @@ static struct upump *vloop_alloc(struct upump_mgr *mgr, int event, va_list args)
 
     upump_common_init(upump);
     vloop_log_add(m, VLOOP_ALLOC, p->id, false);
+    if (vloop_obj_cb != NULL)
+        vloop_obj_cb(1, "pump", upump);
     return upump;
 }
 
@@ -179,6 +183,8 @@ static void vloop_real_restart(struct upump *upump, bool status)
 
 static void vloop_free(struct upump *upump)
 {
+    if (vloop_obj_cb != NULL)
+        vloop_obj_cb(0, "pump", upump);
     struct vloop_mgr *m = vloop_mgr_from_upump_mgr(upump->mgr);
     struct vloop_pump *p = vloop_pump_from_upump(upump);
     upump_stop(upump);
@@ -238,11 +244,15 @@ static int vloop_control(struct upump *upump, int command, va_list args)
         case UPUMP_ALLOC_BLOCKER: {
             struct upump_blocker **p = va_arg(args, struct upump_blocker **);
             *p = upump_common_blocker_alloc(upump);
+            if (vloop_obj_cb != NULL && *p != NULL)
+                vloop_obj_cb(1, "blocker", *p);
             return UBASE_ERR_NONE;
         }
         case UPUMP_FREE_BLOCKER: {
             struct upump_blocker *blocker =
                 va_arg(args, struct upump_blocker *);
+            if (vloop_obj_cb != NULL)
+                vloop_obj_cb(0, "blocker", blocker);
             upump_common_blocker_free(blocker);
             return UBASE_ERR_NONE;
         }
